@@ -66,7 +66,7 @@ def sim_inputs(seed, count, tier, dims=(3,), pers=(False, True), start_id=1):
     out = []
     gmax = 8 if tier == "thorough" else 6
     nmax = 24 if tier == "thorough" else 12
-    kinds = ["uniform", "sublattice", "cluster", "planar", "walls", "aniso", "line", "fcc", "bcc"]
+    kinds = ["uniform", "sublattice", "cluster", "planar", "walls", "aniso", "line", "fcc", "bcc", "sheet"]
     i = 0
     while len(out) < count:
         kind = kinds[i % len(kinds)]
@@ -77,6 +77,10 @@ def sim_inputs(seed, count, tier, dims=(3,), pers=(False, True), start_id=1):
         if kind == "aniso":
             G = [rng.choice([gcap, max(2, gcap - 2)]), rng.choice([1, 2]), rng.choice([1, 2, 3])]
             rng.shuffle(G)
+        elif kind == "sheet":
+            # a box that is long along ONE axis (each axis in turn), generators in one or two layers across it
+            G = [2, 2, 2]
+            G[(i // len(kinds)) % 3] = gcap
         else:
             g = rng.randint(3 if not per else 3, gcap)
             G = [g, g, g]
@@ -109,6 +113,11 @@ def sim_inputs(seed, count, tier, dims=(3,), pers=(False, True), start_id=1):
             base = rng.choice(pts)
             cand = [p for p in pts if all(p[k] == base[k] for k in range(3) if k != ax)]
             sel = cand if len(cand) <= n else rng.sample(cand, n)
+        elif kind == "sheet":
+            ax = max(range(3), key=lambda k: G[k]) if dim == 3 else max(range(dim), key=lambda k: G[k])
+            layers = rng.sample(sorted(set(p[ax] for p in pts)), min(2, len(set(p[ax] for p in pts))))
+            cand = [p for p in pts if p[ax] in layers[:rng.choice([1, 2])]]
+            sel = cand if len(cand) <= max(n, 8) else rng.sample(cand, max(n, 8))
         elif kind in ("fcc", "bcc"):
             # face-centred / body-centred sub-lattices: cells with vertices where four or more faces meet
             if kind == "fcc":
@@ -349,7 +358,9 @@ class Outcome:
 
 
 def apply_lattice(out, run, own_tags, verdict_props=None, distinct_rule=None):
-    """Fold a LatticeRun into an Outcome for the property that owns `own_tags`."""
+    """Fold a LatticeRun into an Outcome for the property that owns `own_tags`.  A panic (tag C05) defeats whatever property the run
+    was made for (nothing can be compared): every lattice check owns it."""
+    own_tags = set(own_tags) | {"C05"}
     verdict_props = verdict_props if verdict_props is not None else {out.prop}
     n_own = 0
     for f in run.failures:
@@ -403,7 +414,7 @@ def check_C01(tier, seed):
     fams = ["R3a", "P3a", "P3b", "P2a", "D2a", "D1a"] if tier == "quick" else \
         ["R3a", "R3b", "R3x", "R3y", "P3a", "P3c", "P3x", "P2a", "P2x", "P2b", "D2a", "D2x", "D1a", "D1p"]
     run = lattice_pipeline(fams, tier, seed, sim=dict(count=40 if tier == "quick" else 800, dims=(3, 3, 2)), tag="C01",
-                           own_tags={"C01"})
+                           own_tags={"C01", "C05"})
     apply_lattice(out, run, {"C01"}, {"C01"})
     out.coverage["rule"] = ("every (input, cell) that TLC finished; distinct = cells compared with the region TLC computed; "
                             "non-trivial = the cell was cut by at least one neighbour")
@@ -421,7 +432,7 @@ def generic_lattice_check(prop, tier, seed, quick_fams, thorough_fams, sim_quick
     total_cells = 0
     for profile in profiles:
         run = lattice_pipeline(fams, tier, seed, sim=sim, profile=profile, tag="%s_%s" % (prop, profile),
-                               own_tags=own_tags, trace_cells=trace_cells, extra_invs=extra_invs)
+                               own_tags=set(own_tags) | {"C05"}, trace_cells=trace_cells, extra_invs=extra_invs)
         apply_lattice(out, run, own_tags, verdict_props)
         total_cells += run.cells_compared
         out.coverage.setdefault("profiles", {})[profile] = run.hstats
